@@ -20,7 +20,7 @@ use vh_engine::util::Rng;
 
 pub const N_HTTP_MALFORMED: u8 = 6;
 pub const N_TCP_MALFORMED: u8 = 4;
-pub const N_FMT: u8 = 8;
+pub const N_FMT: u8 = 10;
 
 #[derive(Debug, Clone, Serialize, Deserialize, PartialEq)]
 pub enum HttpBeh {
@@ -109,7 +109,8 @@ pub fn doc(id: u8, rows: u8, tag: &str) -> (String, String) {
     let seqn = 1000 + id as u32;
     text.push_str(&format!("## seqn = {seqn}\n"));
     fp.push_str(&format!(";seqn=Some({seqn})"));
-    for i in 0..rows.max(1) as u32 {
+    // rows == 0: a header-only table (what bgdl answers for most products): well-formed
+    for i in 0..rows as u32 {
         let region = if i < 7 { REGIONS[i as usize].to_string() } else { format!("r{i}") };
         let empty_hex = (id as u32 + i) % 5 == 0;
         let hexv = if empty_hex {
@@ -151,12 +152,14 @@ pub fn fmt_name(fmt: u8) -> &'static str {
         4 => "mime-lf",
         5 => "mime-crlf-no-checksum",
         6 => "raw-terminated-by-blank-line",
-        _ => "raw-terminated-by-close",
+        7 => "raw-terminated-by-close",
+        8 => "mime-crlf-epilogue-behind-closing-delimiter",
+        _ => "mime-crlf-epilogue-no-checksum",
     }
 }
 
 pub fn fmt_is_mime(fmt: u8) -> bool {
-    fmt % N_FMT <= 5
+    fmt % N_FMT <= 5 || fmt % N_FMT >= 8
 }
 
 /// The bytes a Ribbit server sends for `body` (BPSV text) in wire format `fmt`.
@@ -208,13 +211,17 @@ pub fn wire(body: &str, tag: &str, fmt: u8, seed: u64) -> Vec<u8> {
             _ => {}
         }
         out.extend_from_slice(format!("--{b}--\r\n").as_bytes());
+        if fmt >= 8 {
+            // an epilogue (RFC 2046 5.1.1: text behind the closing delimiter, to be ignored)
+            out.extend_from_slice(b"This is the epilogue. It is also to be ignored.\r\n");
+        }
     }
     if fmt == 4 {
         // LF-only line ends (accepted by the MIME parser; exercises the "\n\n" rule of the reader)
         let s = String::from_utf8(out).expect("ascii").replace("\r\n", "\n");
         out = s.into_bytes();
     }
-    if fmt != 5 {
+    if fmt != 5 && fmt != 9 {
         let sum = hex::encode(Sha256::digest(&out));
         let nl = if fmt == 4 { "\n" } else { "\r\n" };
         out.extend_from_slice(format!("Checksum: {sum}{nl}").as_bytes());
